@@ -41,18 +41,34 @@ func (d *drillmasterActor) onActorOf(ctx vivid.ActorContext, m *cm.ActorOf) {
 
 	ref, exist := d.members[m.Ability][m.Identity]
 	if !exist {
-		ref = ctx.ActorOf(
-			vivid.FunctionalActorProvider(func() vivid.Actor {
-				return newActor(d.system, ability.provider)
-			}),
-			append(ability.configurator, vivid.FunctionalActorDescriptorConfigurator(func(descriptor *vivid.ActorDescriptor) {
-				descriptor.WithNamePrefix(m.Identity).WithName(m.Ability)
-			}))...,
-		)
+		var err error
+		if ref, err = d.actorOf(ctx, ability, m); err != nil {
+			ctx.Reply(err)
+			return
+		}
 		d.members[m.Ability][m.Identity] = ref
 	}
 
 	ctx.Reply(ref)
+}
+
+// actorOf 创建 Actor，当无法创建时（身份不是合法的 Actor 名称、名称已被占用）返回错误，而不是使管理者自身发生事故
+func (d *drillmasterActor) actorOf(ctx vivid.ActorContext, ability *ability, m *cm.ActorOf) (ref vivid.ActorRef, err error) {
+	defer func() {
+		if reason := recover(); reason != nil {
+			ref, err = nil, fmt.Errorf("the actor %s of the ability %s can not be created: %v", m.Identity, m.Ability, reason)
+		}
+	}()
+
+	ref = ctx.ActorOf(
+		vivid.FunctionalActorProvider(func() vivid.Actor {
+			return newActor(d.system, ability.provider)
+		}),
+		append(ability.configurator, vivid.FunctionalActorDescriptorConfigurator(func(descriptor *vivid.ActorDescriptor) {
+			descriptor.WithNamePrefix(m.Identity).WithName(m.Ability)
+		}))...,
+	)
+	return ref, nil
 }
 
 // onTerminated 当由该管理者创建的 Actor 终止时，将其从成员列表中移除，下一次请求将重新创建
